@@ -160,7 +160,7 @@ fn parse_uptime(text: &str) -> Option<Est> {
 impl Prop for C19 {
     type Scn = Scn;
     const ID: &'static str = "C19";
-    const ENGINE: &'static str = "netsim";
+    const ENGINE: &'static str = crate::NETSIM_ENGINE;
 
     fn rule() -> &'static str {
         "one evaluation = one timestamped segment delivered to the TCP or unified analyzer at a simulated wall/monotonic time, judged against the executable model of the statement; non-trivial = the run contains at least one pair the model expects an estimate for AND at least one it expects to be withheld; distinct = distinct event-log hash ((observed ms, TSval, result) sequence)"
